@@ -34,6 +34,12 @@ Proof.
   - eexists. split; [vm_compute; reflexivity|vm_compute; reflexivity].
 Qed.
 
+(* a knock handler that acknowledges before it opens the door: the dialler's stream can reach the plugin's muxer while
+   knockCh is still empty and is handed to the MAIN listener *)
+Example C08_refuted_ack_before_door :
+  exists s, crun ackFirstP ServerMux cinit [LA; LA; LA; LD; LR; LK; LK; LD; LD; LM] = Some s /\ delivered s = Some ToMain.
+Proof. eexists. split; vm_compute; reflexivity. Qed.
+
 (* non-vacuity: the same schedules on the current order end with the stream at the id's listener *)
 Example C08_nonvacuous :
   (exists s, crun gen_cmux_params ServerMux cinit [LD; LR; LA; LA; LA; LK; LK; LK; LD; LD; LM] = Some s /\
